@@ -130,3 +130,28 @@ def decide_close(run, oid, fn, lhs, rhs, case, rel=1e-13, numeric_replay=None, f
     run.violation(oid, fn, f"symbolic identity refuted: a coefficient of the difference polynomial is {worst:.3e} (scale {scale:.3e})", fields=f,
                   replay={"case": case, "largest_coefficient_of_difference": worst, "scale": scale, "native_numeric_replay": native}, no_input=not fired, engine="S(symx)")
     return False
+
+
+def guarded(run, prove, *args, **kw):
+    """run an Engine-S prove function; an exception that escapes it while the innermost frames are inside the repository under test means the real code raised on an
+    input the harness prepared (state templates, gauge moves, operator construction): that is a violated totality clause with a concrete input (the traceback),
+    not a checker error.  Exceptions raised by the harness itself stay checker errors."""
+    import traceback
+    from vk import common
+    try:
+        return prove(run, *args, **kw)
+    except Exception as e:
+        tb = traceback.extract_tb(e.__traceback__)
+        inner = [f for f in tb if f.filename.startswith(common.REPO + "/")]
+        last_verif = [f for f in tb if "/verif/" in f.filename]
+        if inner and tb[-1].filename.startswith(common.REPO + "/"):
+            where = inner[-1]
+            name = getattr(prove, "__module__", "prove").split(".")[-1]
+            run.oblig(f"post:{name}:prepared_inputs_total", where.name, "S(symx)", "violated", "exact polynomial normal form")
+            run.violation(f"post:{name}:prepared_inputs_total", where.name,
+                          f"the code under test raised {type(e).__name__}: {e} at {where.filename[len(common.REPO) + 1:]}:{where.lineno} ({where.name}) while the harness "
+                          f"prepared / executed a case ({last_verif[-1].name if last_verif else '?'} line {last_verif[-1].lineno if last_verif else '?'})",
+                          fields={"exception": type(e).__name__, "raised_in": where.name},
+                          replay={"traceback": traceback.format_exception(type(e), e, e.__traceback__)[-12:]}, engine="S(symx)")
+            return None
+        raise
